@@ -215,13 +215,15 @@ def run(ctx):
                         ctx.impl_violation(f"{name}: n_to_ujk_flipped({n}) changes when the same base configuration is passed as {lab}", dict(case=name, lattice=zoo.lat_to_json(l), n=n, u=u.tolist(), representation=lab)); break
                     if not variants.untouched(lab, keep, uv):
                         ctx.impl_violation(f"{name}: n_to_ujk_flipped({n}) modified its input ({lab})", dict(case=name, lattice=zoo.lat_to_json(l), n=n, u=u.tolist(), representation=lab)); break
-                for lab, tv in variants.of_array(tree):
+                for lab, tv in variants.of_array(tree, floats=False):
                     if not np.array_equal(ff.n_to_ujk_flipped(n, u, tv), base):
                         ctx.impl_violation(f"{name}: n_to_ujk_flipped({n}) changes when the same tree is passed as {lab}", dict(case=name, lattice=zoo.lat_to_json(l), n=n, u=u.tolist(), representation=lab)); break
             ctx.case((name, "churn"), nontrivial=F >= 3)
             ctx.count("churn_lattices")
         except Exception as ex:
             ctx.impl_violation(f"{name}: raised {type(ex).__name__}: {ex} on a freshly built lattice", dict(case=name, lattice=zoo.lat_to_json(l)))
+    core.history_check(ctx, "import numpy as np\nfrom koala import example_graphs as eg, voronization as vz, graph_utils as gu, quasicrystals as qc, phase_diagrams as pdg, hamiltonian as ham\nfrom koala.flux_finder import flux_finder as ff\n\ndef _canon(l):\n    parts = [l.vertices.positions.ravel(), l.edges.indices.ravel().astype(float), l.edges.crossing.ravel().astype(float)]\n    return np.concatenate(parts)\ndef _plaq(l):\n    out = []\n    for p in l.plaquettes:\n        out += [float(len(p.edges))] + [float(x) for x in p.edges] + [float(x) for x in p.directions] + [float(x) for x in p.vertices] + [float(x) for x in p.center]\n    return np.array(out)\n_pts = np.random.default_rng(123).uniform(size=(14, 2))\n", ["gu.plaquette_spanning_tree(vz.generate_lattice(_pts))", "gu.plaquette_spanning_tree(eg.honeycomb_lattice(3), False)",
+                                      "ff.n_to_ujk_flipped(5, np.ones(42, dtype=np.int8), gu.plaquette_spanning_tree(vz.generate_lattice(_pts)))"], label="spanning-tree call")
     outs = core.Driver().run_parallel(reqs)
     for (name, l, shortest, tree, bi, ns, flipped), o in zip(meta, outs):
         brk = lambda what, **kw: ctx.corr_break(f"{name} [shortest={shortest}]: {what}", dict(case=name, lattice=zoo.lat_to_json(l), shortest=shortest, **kw))
